@@ -730,6 +730,44 @@ theorem C13_setitem_reject (E : Env α δ) (self : List α) (k : Int) (v : α) (
   simp only [setItem, hj]
   exact C13_dtype_reject E _ harr hnh
 
+/-- `x.dtype` is the dtype of every block — also after an assignment, in particular after the one
+    block of a single-block array was replaced by an array of another dtype (the property reads the
+    blocks, it is not a value remembered from construction) -/
+theorem C13_dtype_property (E : Env α δ) (hAs : ∀ x y, E.asArr x = .ok y → E.isArr y = true) :
+    (∀ b, WF E b → b ≠ [] → ∃ d, dtypeOf E b = .ok d ∧ ∀ a ∈ b, E.dt a = d) ∧
+    (∀ self k v r, setItem E self k v = .ok r → ∃ d, dtypeOf E r = .ok d ∧ ∀ a ∈ r, E.dt a = d) ∧
+    (∀ (a0 v : α), E.isArr v = true → setItem E [a0] 0 v = .ok [v] ∧ dtypeOf E [v] = .ok (E.dt v)) := by
+  have key : ∀ b, WF E b → b ≠ [] → ∃ d, dtypeOf E b = .ok d ∧ ∀ a ∈ b, E.dt a = d := by
+    intro b hwf hne
+    cases b with
+    | nil => exact absurd rfl hne
+    | cons a0 rest => exact ⟨E.dt a0, rfl, fun a ha => hwf.2 a ha a0 (by simp)⟩
+  refine ⟨key, ?_, ?_⟩
+  · intro self k v r h
+    have hwf : WF E r := by
+      unfold setItem at h
+      cases hp : pyIndex self.length k with
+      | none => simp [hp] at h
+      | some j => simp only [hp] at h; exact mkFrom_wf E hAs h
+    have hne : r ≠ [] := by
+      unfold setItem at h
+      cases hp : pyIndex self.length k with
+      | none => simp [hp] at h
+      | some j =>
+        simp only [hp] at h
+        have hl := (mkFrom_ok E h).1
+        have hj := pyIndex_lt hp
+        intro hr
+        rw [hr] at hl
+        simp at hl
+        omega
+    exact key r hwf hne
+  · intro a0 v hv
+    have hwf : WF E [v] := ⟨by simpa using hv, by intro a ha b hb; simp at ha hb; rw [ha, hb]⟩
+    refine ⟨?_, rfl⟩
+    have : pyIndex 1 0 = some 0 := by decide
+    simp [setItem, this, mkBlock_wf E hwf]
+
 /-- before d088c11 the value was stored as it is and the invariant could be broken
     (finding `blockarray-setitem-unchecked`, repaired): blocks = numbers, dtype = parity -/
 theorem C13_setitem_old_witness :
